@@ -95,7 +95,23 @@ ADDED.update({
     "w7_C16": "chains truncated to start at a free cysteine / aspartate / histidine",
     "w7_C17": "the program's own hydrogens supplied under the old naming convention (digit first), not kept",
 })
-ROUND = {"C": 1, "w2": 2, "w3": 3, "w4": 4, "w5": 5, "w6": 6, "w7": 7}
+ADDED.update({
+    "w8_C01": "census also for alternate-location inputs; alt-locs together with a titrate-only list",
+    "w8_C03": "a three-group coupled system with -d under eight interpreter hash seeds",
+    "w8_C04": "halomethanes (C-F ... C-I) around a fragment; bromo- and iodomethane in the kit",
+    "w8_C05": "a priming run under a parameter file with much larger cut-offs before the unions",
+    "w8_C06": "titrate-only lists relabelled along with the structure (negative numbers)",
+    "w8_C07": "Trace_HydSet on the runs that keep the program's own hydrogens (no H-H bond), 1HPX protein",
+    "w8_C09": "ConfPiLine: the section written for a single conformation states that conformation's pI",
+    "w8_C11": "Trace_BondSet: bond set of full runs (kept input hydrogens included) vs the pairwise rule",
+    "w8_C12": "acids in the structure of the C-terminal window",
+    "w8_C13": "a hetero group without chain identifier next to chains that have one",
+    "w8_C14": "C14_UnlistedUnscored: no desolvation data for groups that are not listed",
+    "w8_C15": "a coupled pair whose residues carry different insertion codes",
+    "w8_C16": "exception values bound per pair class (ExcFor); free cysteine at the buried histidine (S195C)",
+    "w8_C18": "look-ups interleaved with the parsed lines (a look-up is an observation)",
+})
+ROUND = {"C": 1, "w2": 2, "w3": 3, "w4": 4, "w5": 5, "w6": 6, "w7": 7, "w8": 8, "w9": 9}
 
 
 def main():
